@@ -28,6 +28,21 @@ def gen(rng, tier):
         # dryoc seals with the OS generator, libsodium opens it, and vice versa (classic + object API)
         if n < 64 or idx % 8 == 0:
             cs.append(Case("box_seal_rt %s %s %s" % (hx(I.rpk), hx(I.rsk), hx(I.msg)), cls="seal-roundtrip", expect="ok"))
+    # ciphertexts constructed so that the one-time authenticator lands on its carry / final-reduction corners
+    for i in range(40 if tier == "quick" else 600):
+        which = "secret" if i % 2 == 0 else "box"
+        I = CornerInst(rng, which)
+        for form in ENC_FORMS + OPEN_FORMS:
+            f = form.split(" ")[0]
+            secret_form = f.startswith(("secretbox", "sbobj"))
+            if "seal" in f or (secret_form != (which == "secret") and "afternm" not in f) or ("afternm" in f and which == "secret"):
+                continue
+            if form in ENC_FORMS:
+                c = enc_case(form, I); c.cls = "corner-" + c.cls
+                cs.append(c)
+            else:
+                cs.append(Case(open_line(form, I), cls="corner-open/" + f, expect=(lambda a, e="ok " + hx(I.msg): a == e),
+                               meta={"why": "opening an honest ciphertext (Poly1305 corner) did not return the message"}))
     return cs
 
 
